@@ -1,7 +1,7 @@
 """Run generated queries on the real engine under given configurations and judge every answer with
 the extracted reference semantics (ocaml/sql.ml: check_answer)."""
 import json
-from . import common, sqlgen
+from . import common, sqlgen, sqlast
 
 UNSUPPORTED_MARKERS = ("not implemented", "Not implemented", "not yet implemented", "Not yet implemented", "unsupported", "Unsupported",
                        "not supported", "Not yet supported", "not yet supported", "TODO")
@@ -81,11 +81,11 @@ def run(gverif, gmodel, work, mode="threaded", timeout_s=60):
                 msg = e.get("err", "")
                 rec["outcome"] = "unsupported" if any(m in msg for m in UNSUPPORTED_MARKERS) else "engine_error"
                 # the spec may say error too: ask the model
-                lines.append("(eval %s %s)" % (dbsx, q.sx))
+                lines.append("(eval %s %s)" % (dbsx, sqlast.expand_text(q.sx)))
                 idx.append((rec, "eval"))
                 continue
             got = "(" + " ".join("(" + " ".join(cell_sx(x) for x in row) + ")" for row in e["rows"]) + ")"
-            lines.append("(check %s %s %s)" % (dbsx, q.sx, got))
+            lines.append("(check %s %s %s)" % (dbsx, sqlast.expand_text(q.sx), got))
             idx.append((rec, "check"))
             want_types = [sqlgen.ENGINE_TYPE[t] for t in q.types]
             got_types = [t for _, t in e["schema"]]
@@ -111,7 +111,7 @@ def run(gverif, gmodel, work, mode="threaded", timeout_s=60):
 
 
 def replay_of(rec):
-    return {"sql": rec["q"].sql, "ast": rec["q"].sx, "config": rec["cfg"], "mode": rec.get("mode"),
+    return {"sql": rec["q"].sql, "ast": sqlast.expand_text(rec["q"].sx), "config": rec["cfg"], "mode": rec.get("mode"),
             "classes": sorted(rec["q"].classes), "outcome": rec["outcome"], "model_verdict": rec["verdict"],
             "engine": rec["engine"] if not isinstance(rec["engine"], dict) or len(json.dumps(rec["engine"])) < 4000
             else {k: (v if k != "rows" else v[:40]) for k, v in rec["engine"].items()},
